@@ -103,7 +103,7 @@ pub fn gen_wb_cfg(rng: &mut Rng) -> WriteBufferConfig {
         max_size_bytes: usize_of(rng, &[0, 1, 72, 73, 74, 146, 150, 219, 300, 500, 1 << 30, u64::MAX]),
         max_deltas: usize_of(rng, &[0, 1, 2, 3, 4, 6, 1 << 30, u64::MAX]),
         backpressure_threshold_bytes: usize_of(rng, &[0, 1, 73, 146, 147, 219, 300, 450, 1 << 40, 1 << 40, u64::MAX]),
-        compression_enabled: false,
+        compression_enabled: rng.chance(1, 2),
     }
 }
 
@@ -120,6 +120,7 @@ fn count_cfg(out: &mut Out, c: &WriteBufferConfig) {
     out.count(&format!("x:config:max_size_bytes={}", b(c.max_size_bytes)));
     out.count(&format!("x:config:max_deltas={}", b(c.max_deltas)));
     out.count(&format!("x:config:backpressure={}", b(c.backpressure_threshold_bytes)));
+    out.count(&format!("x:config:compression_enabled={}", c.compression_enabled));
     let iv = c.flush_interval;
     out.count(&format!("x:config:flush_interval={}", if iv.is_zero() { "0" } else if iv == Duration::MAX { "max" } else if iv.subsec_nanos() % 1_000_000 != 0 { "sub-ms" } else if iv >= Duration::from_secs(3600) { "never" } else { "ms" }));
 }
@@ -717,7 +718,7 @@ fn gen_life(rng: &mut Rng) -> LifeCfg {
             max_segments_per_compaction: rng.range(2, 6) as usize,
             target_segment_size: *rng.pick(&[1usize << 20, 1 << 21]), // ARUN carries no segment sizes: every segment is a candidate on both sides
             tombstone_ttl: Duration::MAX,
-            compression_enabled: false,
+            compression_enabled: rng.chance(1, 2),
             ..CompactionCfgSerde::test()
         })
     } else {
@@ -923,6 +924,111 @@ async fn lives_case(out: &mut Out, rng: &mut Rng, cap: u64) {
     out.sample(json!({"workload": text}));
 }
 
+
+// ---------------------------------------------------------------------------------------------
+// T6: `StreamingConfig.prefix` is configuration; objects of other prefixes are none of our business
+// ---------------------------------------------------------------------------------------------
+
+/// one small workload (flushes — one with a failing put —, a compaction, a checkpoint object through
+/// `CheckpointManager`, recovery) on a store that already holds the objects `foreign`, under `prefix`
+async fn prefix_run(prefix: &str, ups: &[Upd], fail_at: u64, foreign: &[(String, Vec<u8>)]) -> Result<(std::collections::BTreeMap<String, Vec<u8>>, String), String> {
+    use redis_sim::streaming::{Compactor, ManifestManager, RecoveryManager};
+    let mut img = std::collections::BTreeMap::new();
+    for (k, v) in foreign {
+        img.insert(k.clone(), v.clone());
+    }
+    let store = FaultStore::from_image(&img);
+    let mut pers = StreamingPersistence::with_clock(Arc::new(store.clone()), prefix.to_string(), 1, crate::c12::wb_config(), SimulatedClock::new(0)).await.map_err(|e| format!("construct: {}", e))?;
+    {
+        let mut g = store.inner.lock().unwrap();
+        g.calls = 0;
+        g.faults = [(fail_at, Fault::Fail)].into_iter().collect();
+    }
+    let mut trace = String::new();
+    for (i, u) in ups.iter().enumerate() {
+        pers.push(delta_of(u, 1)).map_err(|e| format!("push: {}", e))?;
+        if i % 2 == 1 || i + 1 == ups.len() {
+            let r = pers.flush().await;
+            trace.push_str(&format!("flush={} pending={};", r.is_ok(), pers.pending_count()));
+        }
+    }
+    let r = pers.flush().await;
+    trace.push_str(&format!("flush={} pending={};", r.is_ok(), pers.pending_count()));
+    let cfg = redis_sim::streaming::CompactionConfig { target_segment_size: 1 << 20, max_segments: 0, min_segments_to_compact: 2, max_segments_per_compaction: 8, tombstone_ttl: Duration::MAX, compression_enabled: false };
+    let mut comp = Compactor::with_time_source(Arc::new(store.clone()), prefix.to_string(), ManifestManager::new(store.clone(), prefix), cfg, crate::c12::FixedTime(0));
+    let cr = comp.compact().await;
+    trace.push_str(&format!("compact={};", match &cr { Ok(c) => format!("ok removed={} created={}", c.segments_removed.len(), c.segment_created.is_some()), Err(e) => format!("err {}", e) }));
+    let rec = RecoveryManager::new(store.clone(), prefix, 1).recover().await;
+    trace.push_str(&format!("recover={};", match &rec { Ok(r) => crate::c11::show_upds(&crate::c11::sorted_map(&crate::c11::fold_recovered(r))), Err(e) => format!("err {}", e) }));
+    Ok((store.image(), trace))
+}
+
+async fn prefix_case(out: &mut Out, rng: &mut Rng) {
+    let prefixes = ["", "a", "a/b", "é", "p/segments", "manifest.json", "p/", " sp aced ", "p2", "pp", "P", "0", "x/../y"];
+    let long = "l".repeat(200);
+    let pfx: &str = if rng.chance(1, 12) { &long } else { *rng.pick(&prefixes) };
+    let n = rng.range(2, 6);
+    let ups: Vec<Upd> = (0..n).map(|i| lww_upd(&format!("k{}", i % 3), format!("v{}", i).as_bytes(), 10 + i, 1 + i % 2, i == 3)).collect();
+    let fail_at = rng.below(9);
+    // objects of OTHER prefixes that share a string prefix with ours (another node on the same bucket)
+    let foreign: Vec<(String, Vec<u8>)> = vec![
+        (format!("{}2/manifest.json", pfx), b"{\"foreign\":1}".to_vec()),
+        (format!("{}2/segments/segment-00000000.seg", pfx), b"foreign-segment".to_vec()),
+        (format!("{}x/segments/segment-00000001.seg", pfx), b"foreign-segment-1".to_vec()),
+        (format!("q{}/manifest.json", pfx), b"foreign-manifest".to_vec()),
+    ];
+    let base = prefix_run(PREFIX, &ups, fail_at, &[]).await;
+    let other = prefix_run(pfx, &ups, fail_at, &foreign).await;
+    out.count(&format!("x:prefix:{}", if pfx.is_empty() { "empty" } else if pfx.len() > 100 { "long" } else if pfx.contains('/') { "with-slash" } else if !pfx.is_ascii() { "non-ascii" } else { "plain" }));
+    let replay = json!({"prefix": pfx, "updates": ups.iter().map(|u| sd_line("PUSH", u)).collect::<Vec<_>>(), "failing_call": fail_at});
+    match (base, other) {
+        (Ok((img_p, tr_p)), Ok((img_o, tr_o))) => {
+            if tr_p != tr_o {
+                out.violation("C12:config:prefix-dependent-behaviour", &format!("the same workload behaves differently under prefix {:?} than under {:?}: {} vs {}", pfx, PREFIX, tr_o, tr_p), replay.clone());
+            }
+            // foreign objects untouched
+            for (k, v) in &foreign {
+                if img_o.get(k) != Some(v) {
+                    out.violation("C12:config:foreign-prefix-object-touched", &format!("an object of another prefix ({:?}) was changed or deleted by a workload under prefix {:?}", k, pfx), replay.clone());
+                }
+            }
+            // object for object the same image, prefix replaced
+            let rel = |img: &std::collections::BTreeMap<String, Vec<u8>>, p: &str, skip: &[(String, Vec<u8>)]| -> std::collections::BTreeMap<String, Vec<u8>> {
+                img.iter().filter(|(k, _)| !skip.iter().any(|(f, _)| f == *k)).map(|(k, v)| {
+                    let name = k.strip_prefix(&format!("{}/", p)).map(|s| s.to_string()).unwrap_or_else(|| format!("OUTSIDE:{}", k));
+                    let body = if name == "manifest.json" {
+                        match serde_json::from_slice::<Manifest>(v) {
+                            Ok(mut m) => {
+                                for sg in m.segments.iter_mut() {
+                                    sg.key = sg.key.strip_prefix(&format!("{}/", p)).map(|s| s.to_string()).unwrap_or_else(|| format!("OUTSIDE:{}", sg.key));
+                                }
+                                serde_json::to_vec(&m).unwrap_or_default()
+                            }
+                            Err(_) => b"unparsable".to_vec(),
+                        }
+                    } else {
+                        v.clone()
+                    };
+                    (name, body)
+                }).collect()
+            };
+            let (a, b) = (rel(&img_p, PREFIX, &[]), rel(&img_o, pfx, &foreign));
+            if a != b {
+                let ka: Vec<&String> = a.keys().collect();
+                let kb: Vec<&String> = b.keys().collect();
+                out.violation("C12:config:prefix-dependent-image", &format!("the store image under prefix {:?} is not the image under {:?} with the prefix replaced: objects {:?} vs {:?}", pfx, PREFIX, kb, ka), replay.clone());
+            }
+        }
+        (b, o) => {
+            if b.is_ok() != o.is_ok() {
+                out.violation("C12:config:prefix-dependent-behaviour", &format!("construction succeeds under one of the prefixes {:?} / {:?} only", pfx, PREFIX), replay.clone());
+            }
+        }
+    }
+    out.count("x:case:prefix");
+    out.case(&format!("prefix:{:?}:{}:{}", pfx, n, fail_at), true);
+}
+
 pub async fn run_all(out: &mut Out, rng: &mut Rng, n: u64, paused: bool) {
     let cap = match source_channel_capacity() {
         Some(c) => c,
@@ -941,6 +1047,9 @@ pub async fn run_all(out: &mut Out, rng: &mut Rng, n: u64, paused: bool) {
             px_case(out, &mut r, None).await;
             if r.chance(1, 3) {
                 write_buffer_case(out, &mut r, false).await;
+            }
+            if r.chance(1, 8) {
+                prefix_case(out, &mut r).await;
             }
         }
     } else {
